@@ -87,7 +87,7 @@ def Sim (τ : List Addr) (exitCode : Nat) (orig : Code) (entry : Addr) (s : St) 
   | .inProgress => Live orig entry sp.B s ∧ s.idx = sp.idx ∧ s.idx < τ.length ∧ sp.late = []
   | .exited => Gone sp.late s
 
-theorem Sim_status {τ x orig entry s sp} (h : Sim τ x orig entry s sp) : s.status = sp.status := by
+theorem C01_sim_status {τ x orig entry s sp} (h : Sim τ x orig entry s sp) : s.status = sp.status := by
   obtain ⟨_, _, hm⟩ := h
   cases hs : sp.status <;> rw [hs] at hm
   · exact hm.1.st
@@ -226,7 +226,7 @@ theorem C01_simulation (τ : List Addr) (x : Nat) (orig : Code) (entry : Addr)
     rw [execAll_cons, run_cons]
     exact ⟨by show _ :: _ = _ :: _; rw [h1, i1], i2⟩
 
-theorem Sim_init (τ : List Addr) (x : Nat) (orig : Code) (entry : Addr) :
+theorem C01_sim_init (τ : List Addr) (x : Nat) (orig : Code) (entry : Addr) :
     Sim τ x orig entry (init τ entry orig x) {} :=
   Sim.unload rfl rfl rfl (init_fresh τ entry orig x) rfl
 
@@ -239,7 +239,7 @@ theorem C01_continue_projection (τ : List Addr) (entry : Addr) (orig : Code) (e
     (ho : Bytes orig) (hcc : ∀ a ∈ τ, orig a ≠ 0xCC) (hhead : τ.head? = some entry)
     (hb : NoBreakAtEntry entry ops) (hr : NoRemoveAtEntry entry ops) :
     (execAll (init τ entry orig exitCode) ops).2 = (Spec.run τ exitCode {} ops).2 :=
-  (C01_simulation τ exitCode orig entry ho hcc hhead ops _ _ (Sim_init τ exitCode orig entry) hb hr).1
+  (C01_simulation τ exitCode orig entry ho hcc hhead ops _ _ (C01_sim_init τ exitCode orig entry) hb hr).1
 
 private theorem spec_step_out (τ x) (sp : Spec) (op : Op) :
     (sp.step τ x op).2 ≠ .corrupt ∧ (sp.step τ x op).2 ≠ .outOfFuel := by
@@ -387,7 +387,7 @@ theorem C01_removed_never_stops (τ : List Addr) (entry : Addr) (orig : Code) (e
   have hr2 : NoRemoveAtEntry entry post :=
     fun o h => hr o (List.mem_append_right _ (List.mem_cons_of_mem _ h))
   have hra : Op.remove a ≠ .remove entry := hr _ (List.mem_append_right _ List.mem_cons_self)
-  obtain ⟨_, s1⟩ := C01_simulation τ exitCode orig entry ho hcc hhead pre _ _ (Sim_init τ exitCode orig entry) hb1 hr1
+  obtain ⟨_, s1⟩ := C01_simulation τ exitCode orig entry ho hcc hhead pre _ _ (C01_sim_init τ exitCode orig entry) hb1 hr1
   obtain ⟨_, s2⟩ := C01_simulation_step τ exitCode orig entry ho hcc hhead _ _ s1 (.remove a) (by simp) hra
   obtain ⟨s3, _⟩ := C01_simulation τ exitCode orig entry ho hcc hhead post _ _ s2 hb2 hr2
   rw [s3]
@@ -442,8 +442,8 @@ theorem C01_rearm_every_arrival (τ : List Addr) (entry : Addr) (orig : Code) (e
           (fun a => decide (a ∈ (Spec.run τ exitCode {} pre).1.B))).length + 1) .cont)).2
       = ((τ.drop ((execAll (init τ entry orig exitCode) pre).1.idx + 1)).filter
           (fun a => decide (a ∈ (Spec.run τ exitCode {} pre).1.B))).map .stop ++ [.exit exitCode] := by
-  obtain ⟨_, s1⟩ := C01_simulation τ exitCode orig entry ho hcc hhead pre _ _ (Sim_init τ exitCode orig entry) hb hr
-  have hsp : (Spec.run τ exitCode {} pre).1.status = .inProgress := by rw [← Sim_status s1]; exact hst
+  obtain ⟨_, s1⟩ := C01_simulation τ exitCode orig entry ho hcc hhead pre _ _ (C01_sim_init τ exitCode orig entry) hb hr
+  have hsp : (Spec.run τ exitCode {} pre).1.status = .inProgress := by rw [← C01_sim_status s1]; exact hst
   have hidx : (execAll (init τ entry orig exitCode) pre).1.idx = (Spec.run τ exitCode {} pre).1.idx := by
     obtain ⟨_, _, hm⟩ := s1
     rw [hsp] at hm; exact hm.2.1
@@ -472,5 +472,71 @@ example :
 #guard (Spec.run [0x1000, 0x1004, 0x1008, 0x1004, 0x1008, 0x100c] 7 {}
     [.brk 0x1004, .start, .cont, .remove 0x1004, .brk 0x1008, .cont, .cont]).2
   == [.ok, .stop 0x1004, .stop 0x1004, .ok, .ok, .stop 0x1008, .exit 7]
+
+/-! ## Why each hypothesis is there: the full statements are false of the model (witnesses evaluated by the kernel) -/
+
+/-- the projection statement without the two hypotheses about the entry address -/
+def C01_continue_projection_full : Prop :=
+  ∀ (τ : List Addr) (entry : Addr) (orig : Code) (exitCode : Nat) (ops : List Op),
+    Bytes orig → (∀ a ∈ τ, orig a ≠ 0xCC) → τ.head? = some entry →
+    (execAll (init τ entry orig exitCode) ops).2 = (Spec.run τ exitCode {} ops).2
+
+private theorem nop_bytes : Bytes (fun _ => 0x90) := fun _ => by show (0x90 : Nat) < 256; decide
+private theorem nop_nocc (τ : List Addr) : ∀ a ∈ τ, (fun _ => 0x90 : Code) a ≠ 0xCC :=
+  fun _ _ => by show (0x90 : Nat) ≠ 0xCC; decide
+
+/-- `break <entry>` before `start`: `enable_all_breakpoints` replaces the internal entry breakpoint by the user's, at
+the very moment it is being handled; the arrival at the entry address is never reported (model: `exit`, spec: `stop`).
+`NoRemoveAtEntry` holds on this witness, so `NoBreakAtEntry` is needed on its own. -/
+theorem C01_continue_projection_counterexample_break_at_entry :
+    ¬ C01_continue_projection_full ∧ NoRemoveAtEntry 0x1000 [.brk 0x1000, .start] ∧
+    (execAll (init [0x1000, 0x1004] 0x1000 (fun _ => 0x90) 0) [.brk 0x1000, .start]).2 = [.ok, .exit 0] ∧
+    (Spec.run [0x1000, 0x1004] 0 {} [.brk 0x1000, .start]).2 = [.ok, .stop 0x1000] := by
+  have h1 : (execAll (init [0x1000, 0x1004] 0x1000 (fun _ => 0x90) 0) [.brk 0x1000, .start]).2 = [.ok, .exit 0] := by
+    decide +kernel
+  have h2 : (Spec.run [0x1000, 0x1004] 0 {} [.brk 0x1000, .start]).2 = [.ok, .stop 0x1000] := by decide +kernel
+  refine ⟨fun h => ?_, by decide, h1, h2⟩
+  have := h [0x1000, 0x1004] 0x1000 (fun _ => 0x90) 0 [.brk 0x1000, .start] nop_bytes (nop_nocc _) rfl
+  rw [h1, h2] at this
+  exact absurd this (by decide)
+
+/-- `remove <entry>` while the debuggee runs: `remove_by_addr` does not look at the kind, answers `ok` and deletes the
+debugger's internal entry-point breakpoint (spec: `none`, there is no user breakpoint there).
+`NoBreakAtEntry` holds on this witness. -/
+theorem C01_continue_projection_counterexample_remove_at_entry :
+    NoBreakAtEntry 0x1000 [.brk 0x1004, .start, .remove 0x1000] ∧
+    (execAll (init [0x1000, 0x1004, 0x1008] 0x1000 (fun _ => 0x90) 0) [.brk 0x1004, .start, .remove 0x1000]).2
+      = [.ok, .stop 0x1004, .ok] ∧
+    (Spec.run [0x1000, 0x1004, 0x1008] 0 {} [.brk 0x1004, .start, .remove 0x1000]).2
+      = [.ok, .stop 0x1004, .none] := by
+  refine ⟨by decide, by decide +kernel, by decide +kernel⟩
+
+/-- if the trace does not start at the entry address, the user breakpoints before the first arrival at the entry
+address are not yet enabled (they are enabled when the entry breakpoint is hit) and are missed -/
+theorem C01_continue_projection_counterexample_entry_not_first :
+    (execAll (init [0x1004, 0x1000, 0x1008] 0x1000 (fun _ => 0x90) 0) [.brk 0x1004, .start]).2 = [.ok, .exit 0] ∧
+    (Spec.run [0x1004, 0x1000, 0x1008] 0 {} [.brk 0x1004, .start]).2 = [.ok, .stop 0x1004] := by
+  refine ⟨by decide +kernel, by decide +kernel⟩
+
+/-- a debuggee with an `int3` of its own on the trace makes the debugger meet a SIGTRAP it has no breakpoint for -/
+theorem C01_continue_projection_counterexample_own_int3 :
+    (execAll (init [0x1000, 0x1004] 0x1000 (fun a => if a = 0x1004 then 0xCC else 0x90) 0) [.start]).2
+      = [.corrupt] := by
+  decide +kernel
+
+/-- the text clause of the patch invariant without the restriction to live processes -/
+def C01_patch_inv_full : Prop :=
+  ∀ (τ : List Addr) (entry : Addr) (orig : Code) (exitCode : Nat) (ops : List Op), Bytes orig →
+    ∀ a, (execAll (init τ entry orig exitCode) ops).1.code a
+      = if (execAll (init τ entry orig exitCode) ops).1.active.any (fun b => b.addr == a && b.enabled)
+        then 0xCC else orig a
+
+/-- after the exit the registry is emptied (`disable_all_breakpoints`; its pokes fail, the process is gone) but the
+model keeps the last text: the text clause is only meaningful, and only claimed, while the process exists -/
+theorem C01_patch_inv_counterexample_after_exit : ¬ C01_patch_inv_full := by
+  intro h
+  have := h [0x1000, 0x1004] 0x1000 (fun _ => 0x90) 0 [.start] nop_bytes 0x1000
+  revert this
+  decide +kernel
 
 end BsVerif.Bp
